@@ -122,13 +122,36 @@ func ChunkConc(a Args) {
 			readers = append(readers, r)
 		}
 		sort.Strings(readers)
+		// an appender's piece: the grown value has N[w] chunks (one byte more when the count stays the same)
+		piece := func(w string) []byte {
+			d := p.N[w] - p.N[p.Pre]
+			n := 1
+			if d > 0 {
+				n = d*pay - 3
+			}
+			r := rand.New(rand.NewSource(int64(w[len(w)-1])*31337 + int64(n)))
+			b := make([]byte, n)
+			r.Read(b)
+			return b
+		}
+		// the complete value a writer leaves behind, and the flags it has
+		full := func(w string) ([]byte, uint32) {
+			switch p.Kind[w] {
+			case "append":
+				return append(append([]byte{}, value(p.Pre, p.N[p.Pre])...), piece(w)...), flagsOf(p.Pre)
+			case "prepend":
+				return append(append([]byte{}, piece(w)...), value(p.Pre, p.N[p.Pre])...), flagsOf(p.Pre)
+			}
+			return value(w, p.N[w]), flagsOf(w)
+		}
 		classify := func(miss bool, data []byte, flags uint32) []interface{} {
 			if miss {
 				return []interface{}{"miss"}
 			}
 			for _, w := range allWriters {
-				if bytes.Equal(data, value(w, p.N[w])) {
-					if flags != flagsOf(w) {
+				fv, ff := full(w)
+				if bytes.Equal(data, fv) {
+					if flags != ff {
 						return []interface{}{"torn", "value of " + w + " with foreign flags"}
 					}
 					return []interface{}{"hit", w}
@@ -186,6 +209,10 @@ func ChunkConc(a Args) {
 						req := common.SetRequest{Key: k, Data: value(c.name, n), Flags: flagsOf(c.name)}
 						var err error
 						switch p.Kind[c.name] {
+						case "append":
+							err = c.h.Append(common.SetRequest{Key: k, Data: piece(c.name)})
+						case "prepend":
+							err = c.h.Prepend(common.SetRequest{Key: k, Data: piece(c.name)})
 						case "add":
 							err = c.h.Add(req)
 						case "replace":
